@@ -33,6 +33,12 @@ def main() -> int:
             from vf.sim import device as _device  # noqa: PLC0415
 
             _device.FORCED_POLICY = spec["chunk_policy"]
+        if "rotation" in spec:
+            from vf.sim import rotation as _rotation  # noqa: PLC0415
+
+            _rotation.FORCED.update({k: list(v) for k, v in spec["rotation"].items()})
+            for k in ("client_debug", "noise_hello_mac_field"):
+                _rotation.FORCED.setdefault(k, [])
         return int(mod.replay(spec) or 0)
 
     t0 = time.monotonic()
